@@ -78,7 +78,11 @@ RandomAct(S) ==
       notes == {a \in acts : a.a = "C15Note"}
       goodInv == {a \in acts : KindOf(a) = "Invite" /\ a.t = "p12" /\ a.s \in S.att}
       r == RandomElement(1..10)
-  IN IF S.call.active /\ r <= 6 /\ notes # {} THEN PickByKind(S, notes)
+      expiry == {a \in acts : a.a = "C15Timeout"}     \* enabled while the call is being established (ringing phase included)
+      ring == {a \in notes : a.event = EvRinging /\ a.t = "p12" /\ a.seq = S.call.seq /\ SessUser[a.s] \in Members \ {S.call.origUid}}
+  IN IF TimerArmed(S) /\ r <= 2 /\ ring # {} THEN RandomElement(ring)      \* a callee session (attached or not) reports ringing
+     ELSE IF S.call.active /\ r <= 6 /\ notes # {} THEN PickByKind(S, notes)
+     ELSE IF r = 7 /\ expiry # {} THEN RandomElement(expiry)   \* so that "invited, ringing reported, nobody answers, timer expires" is drawn often
      ELSE IF ~S.call.active /\ r <= 4 /\ goodInv # {} THEN RandomElement(goodInv)
      ELSE PickByKind(S, acts)
 
